@@ -431,6 +431,25 @@ theorem paramList_sub (P : Project) (c0 : Occ) : ∀ c ∈ paramList P c0, c ∈
     · simp at hc
     · exact membersOf_sub P _ c (List.mem_filter.mp hc).1
 
+theorem resolveArg_mem {P : Project} {o : Occ} {c : Decl} (h : resolveArg P o = some c) : c ∈ P.decls := by
+  unfold resolveArg at h
+  split at h
+  · cases h
+  · exact paramList_sub P _ c (lookup_mem h)
+
+theorem resolveCTask_mem {P : Project} {o : Occ} {c : Decl} (h : resolveCTask P o = some c) : c ∈ P.decls :=
+  declsIn_sub P _ c (List.mem_filter.mp (lookup_mem h)).1
+
+theorem resolveCProg_mem {P : Project} {o : Occ} {c : Decl} (h : resolveCProg P o = some c) : c ∈ P.decls := by
+  unfold resolveCProg at h
+  cases hl : lookup (globalView P o.file) o.name with
+  | none => simp [hl] at h
+  | some x =>
+    simp only [hl, Option.filter] at h
+    split at h
+    · cases h; exact globalView_sub P _ _ (lookup_mem hl)
+    · cases h
+
 theorem finalList_sub (P : Project) (o : Occ) : ∀ c ∈ finalList P o, c ∈ P.decls := by
   intro c hc
   unfold finalList at hc
@@ -593,9 +612,46 @@ theorem refsTo_lookup (h : Ctx P d n) {o : Occ} (hk : o.kind ≠ .decl) (hr : re
       cases hb : baseOf P o with
       | none => simp [hb] at hres
       | some b => simp only [hb] at hres ⊢; exact hres
-  | arg => simp [hkind] at hr
-  | ctask => simp [hkind] at hr
-  | cprog => simp [hkind] at hr
+  | arg =>
+    simp only [hkind, Bool.and_eq_true, beq_iff_eq] at hr ⊢
+    obtain ⟨_, hr⟩ := hr
+    cases hres : resolveArg P o with
+    | none => simp [hres] at hr
+    | some c =>
+      simp only [hres, Option.map_some, Option.some.injEq] at hr
+      have := id_eq_of_map_id h.wf h.hd (resolveArg_mem hres) hr
+      subst this
+      unfold resolveArg at hres
+      cases hb : baseOf P o with
+      | none => simp [hb] at hres
+      | some b => simp only [hb] at hres ⊢; exact hres
+  | ctask =>
+    simp only [hkind, Bool.and_eq_true, beq_iff_eq] at hr ⊢
+    obtain ⟨_, hr⟩ := hr
+    cases hres : resolveCTask P o with
+    | none => simp [hres] at hr
+    | some c =>
+      simp only [hres, Option.map_some, Option.some.injEq] at hr
+      have := id_eq_of_map_id h.wf h.hd (resolveCTask_mem hres) hr
+      subst this
+      exact hres
+  | cprog =>
+    simp only [hkind, Bool.and_eq_true, beq_iff_eq] at hr ⊢
+    obtain ⟨_, hr⟩ := hr
+    cases hres : resolveCProg P o with
+    | none => simp [hres] at hr
+    | some c =>
+      simp only [hres, Option.map_some, Option.some.injEq] at hr
+      have := id_eq_of_map_id h.wf h.hd (resolveCProg_mem hres) hr
+      subst this
+      unfold resolveCProg at hres
+      cases hl : lookup (globalView P o.file) o.name with
+      | none => simp [hl] at hres
+      | some x =>
+        simp only [hl, Option.filter] at hres
+        split at hres
+        · cases hres; rfl
+        · cases hres
   | misc => simp [hkind] at hr
 
 /-- **the final lookup of every occurrence is stable** -/
@@ -706,7 +762,7 @@ theorem paramList_stable (h : Ctx P d n) {c : Occ} (hc : c ∈ P.occs) (hk : c.k
         (L.filter (fun c => c.kind == DKind.param)).map (renameDecl d n) := by
       intro L
       rw [List.filter_map, comp_renameDecl d n _ (by intro c; simp)]
-    by_cases hfm : (callee.kind == DKind.func || callee.kind == DKind.method) = true
+    by_cases hfm : (callee.kind == DKind.func || callee.kind == DKind.method || callee.kind == DKind.fb) = true
     · simp only [hfm, if_true, membersOf_rename, hfil]
     · simp only [hfm]
       rw [typeOfDecl_stable h (resolveCallee_mem hres)]
@@ -727,6 +783,23 @@ theorem resolveArg_stable (h : Ctx P d n) {o : Occ} (ho : o ∈ P.occs) (hk : o.
     rw [paramList_stable h (baseOf_mem hb) (wf_arg_base h.wf ho hk hb)]
     exact hfin
 
+theorem resolveCTask_stable (h : Ctx P d n) {o : Occ} (ho : o ∈ P.occs) (hk : o.kind = .ctask) :
+    resolveCTask (applyRename P d n) (renameOccName P d n o) = (resolveCTask P o).map (renameDecl d n) := by
+  have hfin := final_stable h ho
+  simp only [finalList, hk] at hfin
+  unfold resolveCTask
+  simp only [renameOccName_link, declsIn_rename]
+  rw [List.filter_map, comp_renameDecl d n _ (by intro c; simp)]
+  exact hfin
+
+theorem resolveCProg_stable (h : Ctx P d n) {o : Occ} (ho : o ∈ P.occs) (hk : o.kind = .cprog) :
+    resolveCProg (applyRename P d n) (renameOccName P d n o) = (resolveCProg P o).map (renameDecl d n) := by
+  have hfin := final_stable h ho
+  simp only [finalList, hk] at hfin
+  unfold resolveCProg
+  simp only [renameOccName_file, globalView_rename, hfin, Option.filter_map]
+  rw [comp_renameDecl d n _ (by intro c; simp)]
+
 /-- **Binding preservation, list form**: after the rename every occurrence denotes the renamed image
 of what it denoted before. -/
 theorem binding_stable (h : Ctx P d n) {o : Occ} (ho : o ∈ P.occs) :
@@ -743,17 +816,8 @@ theorem binding_stable (h : Ctx P d n) {o : Occ} (ho : o ∈ P.occs) :
   | typ => exact resolveType_stable h ho hk
   | mem => exact resolveMember_stable h ho hk
   | arg => exact resolveArg_stable h ho hk
-  | ctask =>
-    have hfin := final_stable h ho
-    simp only [finalList, hk] at hfin
-    simp only [renameOccName_link, declsIn_rename]
-    rw [List.filter_map, comp_renameDecl d n _ (by intro c; simp)]
-    exact hfin
-  | cprog =>
-    have hfin := final_stable h ho
-    simp only [finalList, hk] at hfin
-    simp only [renameOccName_file, globalView_rename, hfin, Option.filter_map]
-    rw [comp_renameDecl d n _ (by intro c; simp)]
+  | ctask => exact resolveCTask_stable h ho hk
+  | cprog => exact resolveCProg_stable h ho hk
   | misc => rfl
 
 theorem bindingId_stable (h : Ctx P d n) {o : Occ} (ho : o ∈ P.occs) :
@@ -792,9 +856,9 @@ theorem refsTo_stable (h : Ctx P d n) {o : Occ} (ho : o ∈ P.occs) :
   | ref => simp only [resolveName_stable h ho hk, map_id_rename]
   | typ => simp only [resolveType_stable h ho hk, map_id_rename]
   | mem => simp only [resolveMember_stable h ho hk, map_id_rename]
-  | arg => rfl
-  | ctask => rfl
-  | cprog => rfl
+  | arg => simp only [resolveArg_stable h ho hk, map_id_rename]
+  | ctask => simp only [resolveCTask_stable h ho hk, map_id_rename]
+  | cprog => simp only [resolveCProg_stable h ho hk, map_id_rename]
   | misc => rfl
 
 theorem renameDecl_back (h : Ctx P d n) {c : Decl} (hc : c ∈ P.decls) :
